@@ -252,7 +252,27 @@ def measure_points(magpy, obj, items, kap):
     return out
 
 
-SUBS = {"flux": (1, 3), "circ": (1, 7, 810)}   # flux: uniform k x k panels per piece; circ: grading level per piece
+SUBS_DEFAULT = {"flux": (1, 3), "circ": (1, 7, 810)}   # flux: uniform k x k panels per piece; circ: grading level per piece
+
+
+MAX_CALL_NODES = 300_000
+
+
+def _eval_batch(obj, kap, law, geo, res):
+    """one getB / getH call for all nodes in geo; res[(tid, order)] = (integral, gross, finite, nodes)"""
+    P = np.concatenate([kap.pos(frame_to_lattice(ch, X)) for _, _, ch, X, _ in geo])
+    F = np.asarray(obj.getB(P) if law == "flux" else obj.getH(P), dtype=float).reshape(-1, 3)
+    F = kap.unvec(F)  # back to lattice orientation
+    scale = kap.lam if law == "circ" else 1.0  # amperes resp. lattice units (lam^2 drops out of flux/gross)
+    o = 0
+    for tid, n, ch, X, G in geo:
+        m = len(X)
+        Ff = F[o:o + m] @ np.array(ch["R"], dtype=float)  # components in the chart frame: R^T F
+        o += m
+        d = np.einsum("ij,ij->i", Ff, G)
+        mag = np.linalg.norm(Ff, axis=1) * np.linalg.norm(G, axis=1)  # |F| |dA| resp. |F| |dl|: the gross scale is its sum
+        ok = np.isfinite(d)
+        res[(tid, n)] = (float(d[ok].sum()) * scale, float(mag[ok].sum()) * scale, bool(ok.all()), m)
 
 
 def measure_group(magpy, scene, items, kap, orders=(16, 32), qerr_redo=1e-9):
@@ -260,6 +280,8 @@ def measure_group(magpy, scene, items, kap, orders=(16, 32), qerr_redo=1e-9):
     Pieces whose two orders disagree by more than qerr_redo of the gross scale are measured once more with every
     piece subdivided (composite rule); what remains above 1e-8 is reported as it is (the validator calls it unmeasurable)."""
     obj = build_scene(magpy, scene, kap)
+    # the segment field costs ~0.2 ms per point: refine its flux cells 2 x 2 instead of 3 x 3
+    SUBS = dict(SUBS_DEFAULT, flux=(1, 2)) if any(s["cls"] == "CylinderSegment" for s in scene) else SUBS_DEFAULT
     points = [it for it in items if it[1]["law"] == "point"]
     todo = [it for it in items if it[1]["law"] != "point"]
     done = {}
@@ -275,29 +297,19 @@ def measure_group(magpy, scene, items, kap, orders=(16, 32), qerr_redo=1e-9):
             if rnd >= len(SUBS[law]):
                 continue
             sub = SUBS[law][rnd]
-            geo = []
+            geo, nn = [], 0
             for tid, inst, der in todo:
                 if inst["law"] != law:
                     continue
                 for n in orders:
                     X, G = integrand(inst, der, n, sub)
                     geo.append((tid, n, inst["ch"], X, G))
-            if not geo:
-                continue
-            P = np.concatenate([kap.pos(frame_to_lattice(ch, X)) for _, _, ch, X, _ in geo])
-            F = np.asarray(obj.getB(P) if law == "flux" else obj.getH(P), dtype=float).reshape(-1, 3)
-            F = kap.unvec(F)  # back to lattice orientation
-            scale = kap.lam if law == "circ" else 1.0  # amperes resp. lattice units (lam^2 drops out of flux/gross)
-            o = 0
-            for tid, n, ch, X, G in geo:
-                m = len(X)
-                Ff = F[o:o + m] @ np.array(ch["R"], dtype=float)  # components in the chart frame: R^T F
-                o += m
-                d = np.einsum("ij,ij->i", Ff, G)
-                mag = np.linalg.norm(Ff, axis=1) * np.linalg.norm(G, axis=1)  # |F| |dA| resp. |F| |dl|: the gross scale is its sum
-                ok = np.isfinite(d)
-                fin = bool(ok.all())
-                res[(tid, n)] = (float(d[ok].sum()) * scale, float(mag[ok].sum()) * scale, fin, m)
+                    nn += len(X)
+                if nn >= MAX_CALL_NODES:  # bounded memory: one field call per ~3e5 points
+                    _eval_batch(obj, kap, law, geo, res)
+                    geo, nn = [], 0
+            if geo:
+                _eval_batch(obj, kap, law, geo, res)
         nxt = []
         for tid, inst, der in todo:
             if (tid, orders[0]) not in res:
@@ -403,4 +415,4 @@ def _est_nodes(inst, der):
             k = ax - 1
             n += (len(der["brk"][(k + 1) % 3]) + 1) * (len(der["brk"][(k + 2) % 3]) + 1)
         return n * 1280
-    return sum(len(b) + 1 for b in der["ebrk"]) * 48 if der["ebrk"] else 48
+    return (sum(len(b) + 1 for b in der["ebrk"]) * 48 if der["ebrk"] else 48) * 8   # x8: typical share of refined loops
